@@ -522,7 +522,7 @@ def run(ctx, build):
         ctx.sample(dict(programs=[[OPNAMES[o] for o in p] for p in CLASSIC[0]],
                         schedule='random bursts, then round-robin drain', compared='event trace + final state'))
         # 2. random programs x random schedules
-        nruns = 70000 if ctx.thorough else 4000
+        nruns = 70000 if ctx.thorough else 3000
         if getattr(ctx, 'widen', False):
             nruns = max(nruns, 8000)
         for k in range(nruns):
